@@ -117,6 +117,11 @@ def stream_case(mode, nmsgs, maxlen, frag=False, compress=False, macs=(12, 20, 3
             for i in range(nmsgs):
                 if switch_at == i:
                     _install(ctx, tx, rx, mode if mode != "none" else "classic", bs, macsize or 20, 1, gcmlog)
+                    if compress:
+                        # with the new keys both ends start a fresh compression stream (what the transport does)
+                        c3, c4 = _Codec(), _Codec()
+                        tx.set_outbound_compressor(c3.compress)
+                        rx.set_inbound_compressor(c4.decompress)
                 n = ctx.choice("len(payload%d)" % i, lens(bs) if lens else range(1, (maxlen or 2 * bs + 2) + 1))
                 pl = ctx.bytes("payload%d" % i, n)
                 sent.append(pl)
